@@ -14,6 +14,8 @@ update_masses() (uniform, per atom, per coordinate); in another sixth the atoms'
 change after construction.
 Fixed atoms are also given by negative indices and by mask, constraints are also put on after a few free steps, and
 the FixRot contract includes nearly linear geometries (tolerances scaled by the inertia tensor's condition number).
+Each FixRot object is used again up to three times: after the masses changed at the same geometry, after the atoms
+moved, on a copy of the atoms, and shared with a second Atoms object.
 """
 from __future__ import annotations
 
@@ -36,7 +38,7 @@ ASSUMPTIONS = [
     "FixRot geometries have inertia-tensor condition number <= 1e6 (nearly linear ones included) (non-degenerate, as the statement requires)",
     "FixAtoms and FixCom are never combined on one Atoms object: ASE applies constraints one after the other, so FixCom's rigid shift moves the atoms FixAtoms has just restored (an ASE semantics, observed, not a quansino defect)",
 ]
-REQUIRED = {"simulations_constrained_after_free_steps": 10, "forcebias_sims_with_custom_displacement_masses": 10, "trials_fixatoms": 800, "trials_fixcom": 500, "forcebias_steps": 300, "hamiltonian_trials": 150, "fixrot_calls": 2000, "moved_trials": 1000, "exchange_trials_with_fixed_framework": 100}
+REQUIRED = {"simulations_constrained_after_free_steps": 10, "forcebias_sims_with_custom_displacement_masses": 10, "trials_fixatoms": 800, "trials_fixcom": 500, "forcebias_steps": 300, "hamiltonian_trials": 150, "fixrot_calls": 2000, "fixrot_constraint_used_again": 1000, "fixrot_constraint_used_again:masses": 100, "fixrot_constraint_used_again:copy-then-masses": 100, "fixrot_constraint_used_again:shared-constraint": 100, "moved_trials": 1000, "exchange_trials_with_fixed_framework": 100}
 SHARD_TIMEOUT = {"quick": 900, "thorough": 3000}
 
 
@@ -280,6 +282,31 @@ def run_fixrot(spec, rec):
         atoms.set_momenta(p)  # applies the constraint
         rec.case("fixrot", n, int(np.log10(masses.max() / masses.min()) + 0.5))
         done += 1
+        # the same constraint object used again: after the masses changed at the same geometry (isotope substitution),
+        # after the atoms moved, on a copy of the atoms, and shared with another Atoms object of the same geometry
+        for _k in range(int(rng.integers(0, 4))):
+            act = str(rng.choice(["masses", "positions", "copy-then-masses", "shared-constraint", "same-again"]))
+            target = atoms
+            if act == "masses":
+                target.set_masses(10 ** rng.uniform(0, float(rng.choice([0.1, 1.0, 2.3])), n))
+            elif act == "positions":
+                target.positions += rng.normal(size=(n, 3)) * 0.3 * float(np.abs(pos - pos.mean(0)).max())
+            elif act == "copy-then-masses":
+                target = atoms.copy()
+                target.set_masses(10 ** rng.uniform(0, float(rng.choice([0.1, 1.0, 2.3])), n))
+            elif act == "shared-constraint":
+                target = Atoms("H" * n, positions=atoms.positions.copy())
+                target.set_masses(10 ** rng.uniform(0, float(rng.choice([0.1, 1.0, 2.3])), n))
+                target.constraints = list(atoms.constraints)  # the very same FixRot object
+            ev = target.get_moments_of_inertia()
+            if ev.min() <= 0 or ev.max() / ev.min() > 1e6:
+                break
+            COND["now"] = float(ev.max() / ev.min())
+            m2 = target.get_masses()
+            target.set_momenta(rng.normal(size=(n, 3)) * np.sqrt(m2)[:, None] * float(10 ** rng.uniform(-2, 1)) + rng.normal(size=3) * m2[:, None])
+            rec.count("fixrot_constraint_used_again:" + act)
+            rec.count("fixrot_constraint_used_again")
+            atoms = target
     rec.sample({"geometries": done, "contract_calls": seen["n"]}, cap=1)
 
 
